@@ -152,21 +152,7 @@ func runC14(p *Prog, r *Report, tier string) {
 	}
 	// methods invoked on the shared connection: Write only in the two senders (C09), Read/SetReadDeadline only in the
 	// liveness probe, Close only in the guarded internal close; nothing may arm a write deadline
-	allowedConn := map[string]bool{"Write": true, "Read": true, "SetReadDeadline": true, "Close": true}
-	for _, f := range p.RepoFns {
-		if !keyInPkg(fnKey(f), "pkg/exporter") {
-			continue
-		}
-		eachInstr(f, func(in ssa.Instruction) {
-			c := callOf(in)
-			if c == nil || !c.IsInvoke() || !isFieldLoad(c.Value, "pkg/exporter.ExportingProcess.connToCollector") {
-				return
-			}
-			m := c.Method.Name()
-			r.Check(allowedConn[m], "R-OWNER.conn-methods", fmt.Sprintf("%s: connToCollector.%s", fnKey(f), m), p.instrPos(in), "one of Write / Read / SetReadDeadline / Close",
-				"the background code calls "+m+" on the connection shared with the application's sends (e.g. SetDeadline also arms the WRITE deadline, so a concurrent SendSet fails with a timeout after a partial write)", true)
-		})
-	}
+	checkConnMethods(p, r, "R-OWNER.conn-methods")
 	// the functions that write to the connection are called only by SendSet (mode dispatch, sanity checks, length update)
 	ss := p.Fn("(*pkg/exporter.ExportingProcess).SendSet")
 	for _, f := range p.RepoFns {
@@ -187,6 +173,7 @@ func runC14(p *Prog, r *Report, tier string) {
 				"a function that writes to the connection is called without going through SendSet: the refresher (or another caller) bypasses the JSON/IPFIX mode dispatch, the sanity checks and the set-length update", true)
 		}
 	}
+	checkBackgroundStart(p, r, "R-WG.started")
 	// stop observability + periodicity + close on failure
 	S := p.stopClosedSet([]string{"field:pkg/exporter.ExportingProcess.stopCh"}, bodies)
 	for i, b := range bodies {
@@ -339,4 +326,86 @@ func (p *Prog) periodLeaves(v ssa.Value, mul int64, out map[string]bool, depth i
 		return true
 	}
 	return false
+}
+
+// checkBackgroundStart: the template refresher runs for every exporting process whose protocol is "udp" (plain UDP and
+// DTLS alike) and the connection checker for every one whose protocol is "tcp" (TCP and TLS): each go statement is
+// guarded by exactly that test of the caller's CollectorProtocol. A guard on the dynamic type of the connection, or an
+// additional condition, silently leaves one transport without its background work (templates expire at the collector).
+func checkBackgroundStart(p *Prog, r *Report, rule string) {
+	init := p.Fn("pkg/exporter.InitExportingProcess")
+	if init == nil {
+		r.Undecided(rule, "anchor: InitExportingProcess", "pkg/exporter/process.go", "not found")
+		return
+	}
+	n := 0
+	eachInstr(init, func(in ssa.Instruction) {
+		g, ok := in.(*ssa.Go)
+		if !ok || g.Call.StaticCallee() == nil {
+			return
+		}
+		role, want := "", ""
+		eachInstr(g.Call.StaticCallee(), func(x ssa.Instruction) {
+			if c := callOf(x); c != nil && c.StaticCallee() != nil {
+				switch c.StaticCallee().Name() {
+				case "sendRefreshedTemplates":
+					role, want = "template refresher", "udp"
+				case "checkConnToCollector":
+					role, want = "connection checker", "tcp"
+				}
+			}
+		})
+		if role == "" {
+			return
+		}
+		n++
+		matched, extra := false, ""
+		for _, gd := range guardsOf(in.Block()) {
+			b, isB := gd.If.Cond.(*ssa.BinOp)
+			okG := false
+			if isB && (b.Op == token.EQL || b.Op == token.NEQ) {
+				if _, fn, _, isF := loadedField(b.X); isF && fn == "CollectorProtocol" {
+					if sv, isS := constString(b.Y); isS && sv == want && ((b.Op == token.EQL && gd.Succ == 0) || (b.Op == token.NEQ && gd.Succ == 1)) {
+						okG = true
+					}
+				}
+			}
+			if okG {
+				matched = true
+			} else if ex, isEx := gd.If.Cond.(*ssa.Extract); isEx {
+				extra = "a test of " + ex.Tuple.String()
+			} else {
+				extra = "an additional condition"
+			}
+		}
+		// guards that only decide HOW the connection was dialled (TLS or not) dominate the whole rest of the constructor only
+		// through returns; anything left here is a real extra condition
+		r.Check(matched && extra == "", rule, fmt.Sprintf("%s: the %s is started exactly when CollectorProtocol == %q", fnKey(init), role, want), p.instrPos(in),
+			"go statement guarded by input.CollectorProtocol == \""+want+"\" only",
+			fmt.Sprintf("the %s is not started under exactly input.CollectorProtocol == %q (%s): one of the transports of that protocol (e.g. DTLS, whose connection is not a *net.UDPConn) runs without it", role, want, extra), true)
+	})
+	if n < 2 {
+		r.Undecided(rule, "anchor: go statements of the refresher and the connection checker", p.pos(init.Pos()), fmt.Sprintf("found %d", n))
+	}
+}
+
+// checkConnMethods: the connection shared by the application's sends and the background probe is only written, read
+// with a read deadline, and closed; nothing arms a WRITE deadline (SetDeadline does), which would abort a send that is
+// blocked on back-pressure after part of the message went out.
+func checkConnMethods(p *Prog, r *Report, rule string) {
+	allowedConn := map[string]bool{"Write": true, "Read": true, "SetReadDeadline": true, "Close": true}
+	for _, f := range p.RepoFns {
+		if !keyInPkg(fnKey(f), "pkg/exporter") {
+			continue
+		}
+		eachInstr(f, func(in ssa.Instruction) {
+			c := callOf(in)
+			if c == nil || !c.IsInvoke() || !isFieldLoad(c.Value, "pkg/exporter.ExportingProcess.connToCollector") {
+				return
+			}
+			m := c.Method.Name()
+			r.Check(allowedConn[m], rule, fmt.Sprintf("%s: connToCollector.%s", fnKey(f), m), p.instrPos(in), "one of Write / Read / SetReadDeadline / Close",
+				"the background code calls "+m+" on the connection shared with the application's sends (e.g. SetDeadline also arms the WRITE deadline, so a concurrent SendSet fails with a timeout after a partial write)", true)
+		})
+	}
 }
